@@ -1,9 +1,9 @@
 CONSTANTS
-  Idents = {"Target", "Protocol", "Type", "Self_"}
+  Idents = {"Target", "PreTarget", "Protocol", "Type", "Self_"}
   SvNames = {"Sv", "OK", "Rate_Limited", "lowerCase"}
   Modes = {"single", "folder"}
   Elsewheres = {"none", "same_ident_renamed", "same_ident_plain", "module_twin", "same_ident_renamed_later_crate"}
-  Kinds = {"struct", "generic_struct", "unit_enum", "tagged_enum", "alias", "recursive_struct", "recursive_enum", "generic_alias", "generic_enum", "unit_struct", "newtype_struct", "sas_struct", "sas_enum"}
+  Kinds = {"struct", "generic_struct", "unit_enum", "tagged_enum", "alias", "recursive_struct", "recursive_enum", "generic_alias", "generic_enum", "unit_struct", "newtype_struct", "jvm_inline", "sas_struct", "sas_enum"}
   Prefixes = {"", "Pre"}
 INIT Init
 NEXT Next
